@@ -22,6 +22,8 @@ theorem flush_false_no_expunge (close : Bool) (sid : StateId) (snap : Snap) (res
     (out : List Resp) (h : (flush false close sid snap res).result = .ok out) :
     ∀ x ∈ out, x.isExpunge = false := by
   obtain ⟨_, hm⟩ := flush_result_ok h
+  rcases hm with ⟨_, rfl⟩ | ⟨_, hm⟩
+  · simp
   have hpop : ∀ r ∈ (popResponders false res).1, r.isExpunge = false := by
     simpa [popResponders] using popAux_fst_no_expunge [] res
   exact merge_noexp _ out (handleAll_out_noexp close sid snap _ hpop) hm
